@@ -259,6 +259,12 @@ func main() {
 			rep.Broken("load: %v\n%s", err, cf)
 		}
 		srv := l.Server("")
+		// wire conformance (first gzip block; thorough: all): the gzip site's responses are also read by a real client
+		// from a genuine net/http server and compared with what the strict writer recorded
+		var real *kit.RealServer
+		if bi == 0 || rep.Thorough() {
+			real = kit.NewRealServer(srv)
+		}
 		kit.Parallel(len(specs), func(si int) bool {
 			sp := specs[si]
 			local := map[string]int64{}
@@ -274,6 +280,16 @@ func main() {
 					pr, pv1, _ := kit.Serve(srv, kit.Get(method, sp.path, "p.test:8080", hdr...))
 					gr, pv2, _ := kit.Serve(srv, kit.Get(method, sp.path, "g.test:8080", hdr...))
 					rep.Eval(1)
+					if real != nil && pv2 == nil && (ae == "gzip" || ae == "" || ae == "br, gzip") {
+						rr, err := real.Do(kit.Get(method, sp.path, "g.test:8080", hdr...))
+						if err != nil {
+							rep.Broken("real server: %v", err)
+						}
+						rep.AddInt("wire_conformance_requests", 1)
+						if d := kit.ConformanceDiff(gr, rr, false); len(d) > 0 {
+							rep.Violation("C18/wire/response-read-by-a-real-client-differs-from-the-recorded-one", d[0], wcase{cf, kit.Get(method, sp.path, "g.test:8080", hdr...), summary(gr), strings.Join(d, "; ")})
+						}
+					}
 					if pv1 != nil || pv2 != nil {
 						rep.Violation("C18/panic", fmt.Sprintf("panic escaped: %v / %v", pv1, pv2), wcase{cf, kit.Get(method, sp.path, "g.test:8080", hdr...), "", ""})
 						continue
@@ -316,6 +332,9 @@ func main() {
 			rep.ClassN(local)
 			return true
 		})
+		if real != nil {
+			real.Close()
+		}
 		l.Close()
 		if bi == 6 {
 			rep.Sample(map[string]interface{}{"casketfile": cf, "request": kit.Get("GET", "/x.txt", "g.test:8080", "Accept-Encoding: gzip", "X-Probe: hdr:Content-Length=200;hdr:ETag=\"abc\";status:200;write:100xa;flush;write:100xb")})
